@@ -1809,9 +1809,42 @@ class SpaceUpdater(SharedSpaceOperations):
         for _,  v in nx.edge_dfs(self._graph, node):
             self._instructions.append(
                 Instruction(self._update_derived_space, (v,)))
+        self._update_nested_refs(
+            [node] + list(nx.descendants(self._graph, node)))
 
         self._instructions.execute()
         self._update_manager()
+
+    def _update_nested_refs(self, nodes):
+        """Re-derive the references in the child trees of ``nodes``
+
+        ``nodes`` are the spaces whose bases change. A relative reference
+        in a space nested in them is bound relative to the outermost
+        parents of the space and of its base that are related
+        by inheritance.
+        """
+        nested = []
+        for node in nodes:
+            for child in self._graph.visit_tree(node, include_self=False):
+                if child not in nodes and child not in nested:
+                    nested.append(child)
+
+        for child in nested:
+            self._instructions.append(
+                Instruction(self._update_rebound_refs, (child,)))
+
+    def _update_rebound_refs(self, node):
+        """Re-derive the references of a space if any is bound differently"""
+        space = self._graph.to_space(node)
+        for ref in space.own_refs.values():
+            if ref.is_derived() and ref.refmode != "absolute":
+                base = self.get_deriv_bases(ref, defined_only=True)[0]
+                if base.has_interface():
+                    _, value = self.get_relative_interface(space, base)
+                    if value is not ref.interface and (
+                            value._is_valid() or ref.has_interface()):
+                        self._update_derived_refs(node)
+                        break
 
     def remove_bases(self, space, bases):
 
@@ -1835,6 +1868,7 @@ class SpaceUpdater(SharedSpaceOperations):
             self._instructions.append(
                 Instruction(self._update_derived_space, (v,))
             )
+        self._update_nested_refs(subs)
 
         self._instructions.execute()
         self._update_manager()
